@@ -746,6 +746,61 @@ def _tail_continue(item, skip, add_after, add_before, drops):
     drops.append(f"tail-continue desugaring x{n}: `if C {{ continue; }} REST` -> `if C {{ }} else {{ REST }}` (match is the only statement of the loop body)")
 
 
+def stmt_range(item, frm, after, to):
+    """A contiguous range of WHOLE LINES of the body of fn `item`, chosen by anchor texts:
+       start = the first body line containing `frm` (inclusive)  |  the line after the first body line containing `after`;
+       end   = the last line before the first later line containing `to` (exclusive).
+    The range must be brace-balanced on the token level (whole statements).  Doc comments are kept (they are comments).
+    Returns (text, first_line_no, last_line_no).  A missing anchor or an unbalanced range is a lost anchor."""
+    s = item.src
+    fp = FnParts(item)
+    if fp.body_open is None:
+        raise ExtractError(f"lost anchor: {item.name} in {s.path} has no body")
+    lo = s.toks[s.sig[fp.body_open]][2]
+    hi = s.toks[s.sig[fp.body_close]][1]
+
+    def line_start(pos):
+        return s.text.rfind("\n", 0, pos) + 1
+
+    def line_end(pos):
+        e = s.text.find("\n", pos)
+        return len(s.text) if e < 0 else e + 1
+    if frm:
+        a = s.text.find(frm, lo, hi)
+        if a < 0:
+            raise ExtractError(f"lost anchor: statement range start {frm!r} of {item.name} in {s.path}")
+        start = line_start(a)
+    else:
+        a = s.text.find(after, lo, hi)
+        if a < 0:
+            raise ExtractError(f"lost anchor: statement range start (after) {after!r} of {item.name} in {s.path}")
+        start = line_end(a)
+    b = s.text.find(to, start, hi)
+    if b < 0:
+        raise ExtractError(f"lost anchor: statement range end {to!r} of {item.name} in {s.path}")
+    end = line_start(b)
+    if end <= start:
+        raise ExtractError(f"lost anchor: empty statement range in {item.name} in {s.path}")
+    # whole statements only: every bracket opened in the range is closed in it and vice versa
+    depth = 0
+    for k in range(item.first, item.last + 1):
+        ty, ts, te = s.toks[k][0], s.toks[k][1], s.toks[k][2]
+        if ts < start or te > end or ty in ("ws", "lc", "bc", "str", "chr"):
+            continue
+        w = s.text[ts:te]
+        if w in ("{", "(", "["):
+            depth += 1
+        elif w in ("}", ")", "]"):
+            depth -= 1
+            if depth < 0:
+                raise ExtractError(f"lost anchor: statement range of {item.name} in {s.path} is not brace-balanced")
+    if depth != 0:
+        raise ExtractError(f"lost anchor: statement range of {item.name} in {s.path} is not brace-balanced")
+    la = s.text.count("\n", 0, start) + 1
+    lb = s.text.count("\n", 0, end)
+    return s.text[start:end], la, lb
+
+
 def fn_signature_text(item, opts):
     """signature (fn kw .. before body/where kept) for trait declarations"""
     d = []
